@@ -248,7 +248,10 @@ func runProp(p *Program, id, tier string) (r *Result) {
 		for _, ob := range violKeys(ra) {
 			// (only for findings proper: an undecided obligation says the rule could not read the code as written,
 			// which is what the views are for)
-			if ob.Status == Violated && ob.Rule != "FLOOR" && ob.Rule != "ROLES" && cb[ob.Rule] < ca[ob.Rule] {
+			// R-NILCHECK's call-boundary subjects (what a helper can hand back) legitimately disappear when the
+			// helper is folded in; what replaces them on the view is the pointer phi with a nil alternative, which
+			// only exists where the nil can actually arrive
+			if ob.Status == Violated && ob.Rule != "FLOOR" && ob.Rule != "ROLES" && ob.Rule != "R-NILCHECK" && cb[ob.Rule] < ca[ob.Rule] {
 				ra.Notes = append(ra.Notes, fmt.Sprintf("the inlined views discharge every obligation, but rule %s has fewer subjects there (%d) than on the code as written (%d): the finding on the code as written stands", ob.Rule, cb[ob.Rule], ca[ob.Rule]))
 				return ra
 			}
@@ -271,7 +274,9 @@ func runProp(p *Program, id, tier string) (r *Result) {
 var noViewProps = map[string]bool{"C18": true}
 
 // finalRules: a violation of these rules on the code as written is not re-examined on views.
-var finalRules = map[string]bool{"R-NILCHECK": true, "R-NILIFACE": true, "R-PANIC": true}
+// (R-NILCHECK is not among them: on views a folded `return nil` shows up as a pointer phi with a nil alternative,
+// which the rule takes as a subject, and the subject-conservation guard below covers the rest)
+var finalRules = map[string]bool{"R-NILIFACE": true, "R-PANIC": true}
 
 func runPropOnce(p *Program, id, tier string) (r *Result) {
 	defer func() {
